@@ -233,6 +233,9 @@ def main(run: core.Run) -> None:
             list(docs.accepted(docs.texts(docs.L_COMMENT, 2, nmin=2)))
         perturb = [dict(c, kind='perturb') for c in docexp.corpus(docs.L_EDIT, 3, depth=1, modes=(True, False))]
         perturb += [dict(c, kind='perturb') for c in docexp.corpus(docs.L_FULL, 2, depth=1)]
+    pairs += [{'text': c['text']} for c in docexp.class_cases(1)]
+    perturb += [dict(c, kind='perturb') for c in docexp.class_cases(1)]
+    cross_texts += docs.class_corpus()
     cross = [{'a': a, 'b': b} for a, b in itertools.combinations(cross_texts, 2)]
     run.run_cases(run_case, pairs, 'pairs within a text', chunk=40)
     run.run_cases(run_case, cross, 'pairs across texts', chunk=200)
